@@ -149,6 +149,8 @@ def collect_reads_in_parallel(sample, chr_id, args):
     alignment_collector.alignment_stat_counter.dump(bamstat_file)
 
     logger.info("Finished processing chromosome " + chr_id)
+    # finalize and close the save file before the chromosome is marked as collected: --resume relies on the marker
+    del tmp_printer
     open(lock_file, "w").close()
     for bam in bam_file_pairs:
         bam[0].close()
